@@ -29,6 +29,14 @@ def aj_text(v):
     return "?"
 
 
+def ncorp(fname, key):
+    """number of values of a corpus entry (so that the coverage descriptions follow the corpora)"""
+    try:
+        return len(json.load(open(os.path.join(vcheck.VERIF, "corpus", fname)))[key])
+    except Exception:
+        return -1
+
+
 class Ctx:
     def __init__(self, pid, tier, seed, wd):
         self.pid, self.tier, self.seed, self.wd = pid, tier, seed, wd
@@ -256,8 +264,9 @@ class Ctx:
 
 
 def plan_C06(ctx):
-    ctx.rule = ("TLC enumerates every corpus value (V6: 43 literals, E6: 47 operator expressions) x 14 deciding positions x 3 ways of reaching "
-                "the value; one case per distinct TLC state; a case is non-trivial when its outcome depends on the truthiness decision (all are)")
+    ctx.rule = ("TLC enumerates every corpus value (V6: %d literals, E6: %d operator expressions) x 19 deciding positions x 5 ways of reaching "
+                "the value, and all pairs of %d look-alike values as members of one collection under filter / map / all / some / merge; one case per distinct TLC state; "
+                "a case is non-trivial when its outcome depends on the truthiness decision (all are)" % (ncorp("C06.json", "V6"), ncorp("C06.json", "E6"), ncorp("C06.json", "LA6") + ncorp("C06.json", "LR6")))
     cases = ctx.mc("MC_C06")
     ctx.replay(cases, events=True)
     ctx.records("ctl")
@@ -265,9 +274,10 @@ def plan_C06(ctx):
 
 
 def plan_C02(ctx):
-    ctx.rule = ("TLC enumerates the literal corpus L2 (scalars, arrays with operation-shaped elements, multi-key and near-miss-key objects) x 8 data values, "
+    ctx.rule = ("TLC enumerates the literal corpus L2 (%d values: scalars, strings that are themselves JSON texts, arrays with operation-shaped elements, multi-key and near-miss-key objects) x 8 data values, "
                 "12 near-miss transforms of each of the 35 operator names computed in the specification, dispatch of all 35 names, and every literal "
-                "nested as an operand/branch result; one case per distinct TLC state")
+                "nested as an operand/branch result or as a member of a literal collection, ill-formed operand lists and the bracket-less spelling {op: x} of all 35 names (never a literal); "
+                "one case per distinct TLC state" % ncorp("C02.json", "L2"))
     cases = ctx.mc("MC_C02")
     ctx.replay(cases, events=True)
     ctx.records("mix")
@@ -275,9 +285,10 @@ def plan_C02(ctx):
 
 
 def plan_C03(ctx):
-    ctx.rule = ("TLC enumerates 35 operators x operand counts 0..6 x (3 benign + 5 arbitrary operand tuples), the bracket-less spelling of every "
-                "operator with 20 non-array operands (checked as a relation between the two spellings in the code), and 8 placements of an "
-                "arity error (selected/unselected branch, eager parent, after the deciding operand, default expression); one case per TLC state")
+    ctx.rule = ("TLC enumerates 35 operators x operand counts 0..6 and 255..259, 512, 513 x (3 benign + 5 arbitrary operand tuples), the bracket-less spelling of every "
+                "operator with 20 non-array operands (checked as a relation between the two spellings in the code), and 18 placements of an "
+                "arity error (selected/unselected branch, eager parent, after the deciding operand, default expression, element expression of every iteration); "
+                "the variant of the error (InvalidOperation / WrongArgumentCount) is part of the specification's outcome; one case per TLC state")
     cases = ctx.mc("MC_C03")
     ctx.replay(cases, events=True)
     ctx.records("mix")
@@ -311,9 +322,9 @@ def plan_rel(ctx):
 
 
 def plan_C10(ctx):
-    ctx.rule = ("TLC enumerates operand tuples over the numeric corpus N10 (63 values: integers around 2^53/2^63/2^64, 1e-320..1.8e308, coercible strings/arrays/"
+    ctx.rule = ("TLC enumerates operand tuples over the numeric corpus N10 (%d values: integers around 2^53/2^63/2^64, 1e-320..1.8e308, coercible strings/arrays/"
                 "null/booleans/objects): all tuples of length 0..2 for + * max min, all pairs for - / %%, unary -, length 3 over 18 values, length 4%s over 6 values; "
-                "plus the public js_op helpers; results are compared bit-for-bit (sign, mantissa, exponent) and by spelling class; one case per TLC state" % (" and 5" if ctx.deep else ""))
+                "plus the public js_op helpers; results are compared bit-for-bit (sign, mantissa, exponent) and by spelling class; one case per TLC state" % (ncorp("C10.json", "N10"), " and 5" if ctx.deep else ""))
     es_fixture_crosscheck(ctx)
     cases = ctx.mc("MC_C10")
     ctx.replay(cases)
@@ -323,9 +334,9 @@ def plan_C10(ctx):
 
 
 def plan_C11(ctx):
-    ctx.rule = ("TLC enumerates 14 data trees (objects with dotted/backslashed/numeric/non-ASCII keys, nested arrays, strings, scalars, rule-shaped data) x 102 keys "
+    ctx.rule = ("TLC enumerates %d data trees (objects with dotted/backslashed/numeric/non-ASCII keys, nested arrays, strings, scalars, rule-shaped data) x %d keys "
                 "(escaped paths, integer keys incl. all 64-bit boundaries, negative indices, null, \"\", ill-typed) x 6 forms (with/without default, bracket-less, "
-                "operand-less, computed key, data extended with an unnamed sibling) x 5 defaults; one case per TLC state; cases whose key the statement leaves open are drift-only")
+                "operand-less, computed key, data extended with an unnamed sibling) x 5 defaults; one case per TLC state; cases whose key the statement leaves open are drift-only" % (ncorp("C11.json", "T11"), ncorp("C11.json", "K11")))
     cases = ctx.mc("MC_C11")
     ctx.replay(cases, events=True)
     ctx.records("data11")
@@ -343,9 +354,9 @@ def plan_C12(ctx):
 
 
 def plan_C13(ctx):
-    ctx.rule = ("TLC enumerates 21 collections (literal, var/merge/filter-computed, null, non-arrays, erroring) x 17 element expressions (identity, field, arithmetic, "
-                "outer reference, non-commutative cat, nested map/filter/reduce, log probes, poisons) x 2 outer data for map and filter, and x 14 reducer expressions x 8 "
-                "initial values for reduce; values, Ok/Err and the exact log sequence are compared; one case per TLC state")
+    ctx.rule = ("TLC enumerates %d collections (literal, var/merge/filter-computed, null, non-arrays, erroring, falsy scalars) x %d element expressions (identity, field, arithmetic, "
+                "outer reference, non-commutative cat, nested map/filter/reduce, log probes, poisons) x 2 outer data for map and filter, and x %d reducer expressions x %d "
+                "initial values for reduce; values, Ok/Err and the exact log sequence are compared; one case per TLC state" % (ncorp("C13.json", "CO13"), ncorp("C13.json", "EX13"), ncorp("C13.json", "RX13"), ncorp("C13.json", "IN13")))
     cases = ctx.mc("MC_C13")
     ctx.replay(cases, events=True)
     ctx.machine("C13")
@@ -354,9 +365,9 @@ def plan_C13(ctx):
 
 
 def plan_C14(ctx):
-    ctx.rule = ("TLC enumerates all/some/none x 36 collections (literal arrays with expression, log-probe and poison elements; computed arrays incl. rule-shaped data; "
-                "literal and computed strings over ASCII/2-/3-/4-byte characters; null; empty; non-collections) x 14 predicates x 3 data; values, Ok/Err and the exact "
-                "log sequence (= which elements were evaluated) are compared; one case per TLC state")
+    ctx.rule = ("TLC enumerates all/some/none x %d collections (literal arrays with expression, log-probe and poison elements; computed arrays incl. rule-shaped data; "
+                "literal and computed strings over ASCII/2-/3-/4-byte characters; null; empty; non-collections) x %d predicates x 3 data; values, Ok/Err and the exact "
+                "log sequence (= which elements were evaluated) are compared; one case per TLC state" % (ncorp("C14.json", "CO14"), ncorp("C14.json", "PR14")))
     cases = ctx.mc("MC_C14")
     ctx.replay(cases, events=True)
     ctx.machine("C14")
@@ -366,8 +377,8 @@ def plan_C14(ctx):
 
 def plan_C15(ctx):
     ctx.rule = ("TLC enumerates merge over all operand lists of length 0..%d from 15 values (nested arrays, objects, scalars) plus the bracket-less form, and in over "
-                "37 needles x 29 haystacks (number spellings 1/1.0/1e0/0/-0.0, nested containers, objects with reordered keys, non-ASCII substrings, ill-typed pairs), "
-                "as literals and through var; one case per TLC state" % (4 if ctx.deep else 3))
+                "%d needles x %d haystacks (number spellings 1/1.0/1e0/0/-0.0, nested containers, objects with reordered keys, non-ASCII substrings, ill-typed pairs), "
+                "as literals and through var; one case per TLC state" % (4 if ctx.deep else 3, ncorp("C15.json", "NE15"), ncorp("C15.json", "HS15")))
     cases = ctx.mc("MC_C15")
     ctx.replay(cases, events=True)
     ctx.records("arr")
@@ -456,11 +467,11 @@ def plan_C04(ctx):
 
 
 def plan_C17(ctx):
-    ctx.rule = ("TLC explores every interleaving (one step per call begin / log line / call end) of 2 threads x 9 programs each (81 assignments) and 3 threads x 4 programs (64) "
-                "over a shared pool of 8 rules x 3 data: history independence, inputs untouched, stdout = interleaving of whole lines in per-thread order, termination; "
+    ctx.rule = ("TLC explores every interleaving (one step per call begin / log line / call end) of 2 threads x every pair of 20 short programs and 3 threads x every triple of 7 programs "
+                "over a shared pool of %d rules x %d data (TLC also checks that this model refines the protocol proved with TLAPS in CallsProof.tla), 8 and 16 threads by program assignment only: history independence, inputs untouched, stdout = interleaving of whole lines in per-thread order, termination; "
                 "each program assignment is executed on real threads over shared inputs (%d staggered concurrent rounds + a sequential and a reversed pass), every call's "
                 "outcome compared with the isolated specification outcome, inputs snapshotted before/after, stdout lines counted and parsed, per-thread hook-event streams "
-                "validated by TLC against the machine" % (20 if ctx.deep else 5))
+                "validated by TLC against the machine" % (ncorp("C17.json", "R17"), ncorp("C17.json", "D17"), 20 if ctx.deep else 5))
     bins = ctx.bins(("debug", "release"))
     allh = os.path.join(ctx.wd, "histories.ndjson")
     open(allh, "w").close()
